@@ -69,7 +69,9 @@ func (e *Engine) buildModsets() {
 			if fd, ok := e.funcs[k]; ok {
 				declared[k] = e.assignsKeys(con, fd)
 			}
-		} else if con.Assumed {
+		} else if con.Assumed || con.Pure {
+			// (a function declared pure has, for its callers, no effect at all -
+			// whatever its body does is the trusted-stability part of "pure")
 			if _, ok := e.funcs[k]; ok {
 				declared[k] = newModset()
 			}
@@ -83,7 +85,7 @@ func (e *Engine) buildModsets() {
 				continue
 			}
 			for callee := range ms.calls {
-				if con := e.spec.Contracts[callee]; con != nil && con.Assumed {
+				if con := e.spec.Contracts[callee]; con != nil && (con.Assumed || con.Pure) {
 					continue
 				}
 				if cm := e.modsets[callee]; cm != nil {
@@ -119,7 +121,7 @@ func (e *Engine) buildModsets() {
 	for k, d := range declared {
 		d.calls = e.modsets[k].calls
 		d.vars = e.modsets[k].vars
-		if !e.spec.Contracts[k].Assumed {
+		if !e.spec.Contracts[k].Assumed && !e.spec.Contracts[k].Pure {
 			d.traces = e.modsets[k].traces
 		}
 		e.modsets[k] = d
